@@ -6,7 +6,8 @@ From Refinery Require Import Gen.GenC16.
 
 Record case := {
   c_seed : N;                      (* hashSeed used by the harness for the oracle column *)
-  c_rate : N;                      (* StressRelief.SamplingRate *)
+  c_rate : N;                      (* StressRelief.SamplingRate at the start *)
+  c_rate_changes : list (nat * N); (* (i, r): before op number i of c_ops a reload set SamplingRate := r (UpdateFromConfig) *)
   c_tinfo : list (N * (N * N));    (* trace -> (owner: 0 = A, 1 = B ; wyhash(traceID, hashSeed) as returned by the real function) *)
   c_ops : list op;                 (* the schedule, ending with FlushUp; FlushPeer *)
   c_events : list out;             (* Dropped / Buffered outcomes observed on node A, in op order *)
@@ -23,8 +24,23 @@ Section WithCase.
   Definition m_own (tid : N) : N := match alookup tid (c_tinfo c) with Some (o, _) => o | None => 0%N end.
   Definition m_hash (tid : N) : N := match alookup tid (c_tinfo c) with Some (_, h) => h | None => 0%N end.
   (* StressRelief.GetSampleRate: rate <= 1 keeps everything, else hash <= MaxUint64 / rate *)
+  (* the deterministic rule for a given rate: rate <= 1 keeps everything, else hash <= MaxUint64 / rate *)
+  Definition rule_at (rate : N) (tid : N) : bool :=
+    if N.leb rate 1 then true else N.leb (m_hash tid) (max_u64 / rate).
+  (* the rate IN FORCE when each trace was first decided under stress (the decision is remembered afterwards) *)
+  Fixpoint first_rates (i : nat) (st : bool) (rate : N) (ops : list op) (acc : amap N) : amap N :=
+    let rate' := match find (fun ch => Nat.eqb (fst ch) i) (c_rate_changes c) with Some ch => snd ch | None => rate end in
+    match ops with
+    | [] => acc
+    | Arr _ tid _ _ :: r =>
+        first_rates (S i) st rate' r
+          (if st then match alookup tid acc with Some _ => acc | None => aset tid rate' acc end else acc)
+    | Stress b :: r => first_rates (S i) b rate' r acc
+    | _ :: r => first_rates (S i) st rate' r acc
+    end.
+  Definition m_first_rates : amap N := first_rates 0 false (c_rate c) (c_ops c) [].
   Definition m_keep (tid : N) : bool :=
-    if N.leb (c_rate c) 1 then true else N.leb (m_hash tid) (max_u64 / c_rate c).
+    rule_at (match alookup tid m_first_rates with Some r => r | None => c_rate c end) tid.
   Definition m_alias : bool := negb probe_is_copy.
   Definition m_outs : list out := snd (hrun m_own m_keep m_alias hinit (c_ops c)).
 
